@@ -61,7 +61,7 @@ def cf_case(draw):
         c["auto_distinct_weights"] = True
     if draw(st.integers(0, 29)) == 0:
         # hundreds of patches (compact form, see gen.expand_counts)
-        P = draw(st.sampled_from([127, 128, 129, 255, 256, 257, 300]))
+        P = draw(st.sampled_from([300, 257, 256, 255, 129, 128, 127]))
         c["npatch"] = P
         for kind in ["dd"] + c["present"]:
             c[kind] = {"binning": c["binning"], "npatch": P, "auto": c[kind]["auto"], "expand": draw(st.integers(0, 2**32 - 1))}
